@@ -383,7 +383,11 @@ class Bicomplex(object):
         return (self + (self ** 2 - 1) ** 0.5).log()
 
     def arcsinh(self):
-        return (self + (self ** 2 + 1) ** 0.5).log()
+        # arcsinh is odd: evaluate log(w + sqrt(w**2 + 1)) at w = +/-self with real(w) >= 0,
+        # where the sum does not cancel
+        sign = np.where(np.real(self.z1) < 0, -1.0, 1.0)
+        w = self * sign
+        return (w + (w ** 2 + 1) ** 0.5).log() * sign
 
     def arctanh(self):
         return 0.5 * (((1 + self) / (1 - self)).log())
